@@ -51,6 +51,26 @@ CHECKS = {
   note="Only documented error kinds are asserted; matrix is exhaustive per prefix, prefixes are sampled.",
   technique="property testing with exhaustive per-case enumeration of the misuse matrix",
   design="4/C15"),
+ "C05": dict(
+  text="Model-based exploration of the queue through its public Writer/Reader/ACK API on the simulated disk: generated event sizes (boundary biased around page and header boundaries), chunkings, flush points, reader sections with partial reads, ACKs and reopens, against a slice-of-events model with an interval oracle for implicit flushes; drain probes by a second queue object compare the durable content.",
+  note="Single goroutine (one writer, one reader); page sizes 1024/4096; events up to ~40 KB; zero-length events excluded.",
+  technique="model-based property testing (rapid) with boundary-biased generators",
+  design="4/C05"),
+ "C06": dict(level="fault_enumeration",
+  text="Crash-point enumeration over generated producer/consumer histories: markers around every writer call / ACK / close; every crash image (subsets of un-synced writes, torn header) is reopened via txfile open + NewStandaloneDelegate + pq.New and drained; the delivered sequence must be exactly events [ACKed, flushed) for an allowed pair (flush / ACK in progress all-or-nothing); sampled images also append, drain and ACK. Clean close/reopen points are covered by the history itself (drain probes after reopen).",
+  note="Same durability model as C01; the documented Flushed callback tells which calls flushed implicitly.",
+  technique="fault enumeration: rapid-generated queue histories x crash-image enumeration, event-range oracle",
+  design="4/C06"),
+ "C12": dict(
+  text="Model-based exploration on small bounded files: fill-until-error / drain / ACK / retry cycles and steady produce-consume rounds with traffic far above the file size; writer errors must be errors (no loss, reorder, panic), reader and ACK must succeed on the full file, buffered events flush after space is freed, and FileStats.DataAllocated stays within header page + un-ACKed events + most recent event + constant.",
+  note="Constant of the space bound is 4 pages; write buffer <= 8 pages, events <= 3 pages; file-size excess via the overflow area is recorded, not asserted.",
+  technique="model-based property testing (rapid) with composite fill/drain steps and a space-bound invariant",
+  design="4/C12"),
+ "C17": dict(
+  text="Exploration with counter probes at generated points of producer/consumer/reopen histories: Pending, Active, Reader.Available and the Flushed/ACKed callback totals are compared with an independent ground truth (what a second, fresh queue object can actually drain) and with the model's interval of possibly flushed events.",
+  note="Available only probed between events; callback totals summed over all queue objects of the run.",
+  technique="model-based property testing (rapid), drain-probe ground truth",
+  design="4/C17"),
 }
 
 NOT_APPLICABLE = {}
